@@ -21,6 +21,12 @@ JOBS = {
                      nontrivial=unify_nontrivial, timeout={"quick": 300, "thorough": 900}),
 }
 
+BIP_INV = ["KeepsPrior", "AcyclicRes", "CmpBindsNothing", "CmpLaws", "AppendLen", "FilterPartition", "Emit"]
+BIP_SUBST = {"AtomCodes": "AtomCodesDef", "FmtPieces": "FmtPiecesDef"}
+for _s in ("cmp", "append", "count", "filter", "functor"):
+    JOBS["bip-" + _s] = dict(module="MC_Builtins", constants={"Slice": _s}, subst=BIP_SUBST, invariants=BIP_INV,
+                             timeout={"quick": 600, "thorough": 1800})
+
 UNIFY_ASSUME = [
     "pairs whose unification needs an occurs check are generated but excluded (counted under excluded_cases)",
     "the universe is bounded: terms of depth <= 2 over 2 atoms, 1 integer, 2 floats, 3 variables, $_, f/1 g/2 h/0, lists of <= 3 elements with and without tail",
@@ -41,6 +47,15 @@ PROPS = {
     "C09": dict(jobs=["unify-plain", "unify-sess", "unify-laws"], level="model_checking",
                 rule="the cases of C06/C08 that contain $_ (argument, list element, list tail, nested); non-trivial as for C06",
                 assumptions=UNIFY_ASSUME),
+    "C14": dict(jobs=["bip-cmp"], level="model_checking",
+                rule="every comparison predicate x every ordered pair of operands (integers incl. -2^63 and 2^62, floats incl. -0.0 and fractions, ASCII/space/non-ASCII atoms, non-constants), literally and through variable chains; distinct by (predicate, operands, prior)",
+                assumptions=["integers compared with floats are only generated where the i64 -> f64 conversion is exact", "named forms here; infix forms are covered by the syntax slices (C19/C20)"]),
+    "C16": dict(jobs=["bip-append"], level="model_checking",
+                rule="append with 1-4 inputs from a universe of atoms, numbers, complex terms, bound variables, lists with nested / empty-list elements and bound tails, x 3 priors x several Out shapes",
+                assumptions=["unbound-variable inputs and lists with an unbound tail are outside the claim and excluded"]),
+    "C17": dict(jobs=["bip-count", "bip-filter", "bip-functor", "unify-fn"], level="model_checking",
+                rule="count / include / exclude / functor calls over the list, pattern and complex-term universes of MC_Builtins x priors, and join(...) function terms of the fn slice",
+                assumptions=["join is only claimed for atom / small-integer words"]),
     "C13": dict(jobs=["unify-fn"], level="model_checking",
                 rule="every function term of the universe (4 arithmetic functions x 6 argument lists, 5 joins) against variables, constants of every type and other function terms, both orders, bare and nested in f(_) and in a list, under 6 priors",
                 assumptions=["arithmetic is exact (dyadic) in the model: inputs whose fold is not exactly representable are excluded"]),
